@@ -18,6 +18,7 @@ ATTRS = {
     'a': 'a={{f1(1)}}', 'b': 'b={{v1.x}}', 'cls1': 'class={{f1(2)}}', 'cls2': 'class={{v2.c}}', 'sty': 'style={{f1(3)}}', 'clk1': 'onClick={{v1.h}}', 'clk2': 'onClick={{f1(4)}}',
     'spI': '{{...f1(5)}}', 'spM': '{{...v3.s}}', 'spO': '{{...{{k: f1(6)}}}}', 'id': 'id="s"', 'triv': 't={{v1}}', 'key': 'key={{f1(7)}}', 'ref': 'ref={{v4.r}}', 'on': 'on={{f1(8)}}',
     'dir': 'v-foo={{f1(9)}}', 'dirA': 'v-foo={{[v1.d, f1(10), ["m"]]}}', 'show': 'v-show={{v2.s}}', 'html': 'v-html={{f1(11)}}', 'model': 'v-model={{v1.m}}', 'modelC': 'v-model={{[v1.m, f1(12)]}}',
+    'clsA': 'class={{[f1(30), v2.d]}}', 'clkA': 'onClick={{[f1(31), v3.g]}}', 'styA': 'style={{[v4.t, f1(32)]}}',
     'modelCM': 'v-model={{[v1.m, f1(12), ["x"]]}}', 'modelS': 'v-model={{[v2.n, "arg"]}}', 'slots': 'v-slots={{{{s: f1(13)}}}}', 'arrow': 'cb={{() => f1(14)}}', 'obj': 'o={{{{p: f1(15)}}}}',
 }
 KIDS = {'call': '{{f1(20)}}', 'mem': '{{v1.k}}', 'call2': '{{f1(21)}}', 'text': 'txt', 'el': '<b x={{f1(22)}}>{{v2.y}}</b>', 'comp': '<C1 p={{f1(23)}}>{{v3.z}}</C1>', 'spread': '{{...f1(24)}}',
@@ -435,17 +436,21 @@ def oracle(env):
 
 def jobs(tier):
     out = []
-    plain = ['a', 'b', 'cls1', 'cls2', 'sty', 'clk1', 'clk2', 'spI', 'spM', 'spO', 'id', 'triv', 'key', 'ref', 'on', 'arrow', 'obj']
+    plain = ['a', 'b', 'cls1', 'cls2', 'clsA', 'clkA', 'styA', 'sty', 'clk1', 'clk2', 'spI', 'spM', 'spO', 'id', 'triv', 'key', 'ref', 'on', 'arrow', 'obj']
     dirs = ['dir', 'dirA', 'show', 'html', 'model', 'modelC', 'modelCM', 'modelS', 'slots']
     for h in ('div', 'Foo'):
         for a in plain + dirs:
             out.append({'host': h, 'attrs': [a], 'kids': ['call']})
-        pal = plain if tier != 'quick' else ['a', 'cls1', 'cls2', 'clk1', 'clk2', 'spI', 'spO', 'key', 'on', 'id']
+        pal = plain if tier != 'quick' else ['a', 'cls1', 'cls2', 'clsA', 'clkA', 'clk1', 'clk2', 'spI', 'spO', 'key', 'on', 'id']
         for a, b in itertools.permutations(pal, 2):
             out.append({'host': h, 'attrs': [a, b], 'kids': ['mem']})
         for tr in itertools.permutations(['cls1', 'a', 'cls2', 'spI', 'clk1', 'clk2'], 3):
             if tier == 'quick' and hash(tr) % 3:
                 continue
+            out.append({'host': h, 'attrs': list(tr), 'kids': []})
+        for tr in itertools.permutations(['cls1', 'clsA', 'clk1', 'clkA', 'sty', 'styA', 'a'], 3):
+            if len(set(x[:3] for x in tr)) == 3 or (tier == 'quick' and hash(tr) % 4):
+                continue        # only triples that repeat a mergeable name
             out.append({'host': h, 'attrs': list(tr), 'kids': []})
         for d in dirs:
             for a in ('a', 'spI', 'cls1'):
